@@ -8,8 +8,9 @@
 (* earlier ones), 1..2 outputs each whose script pushes the watched item or nothing and    *)
 (* is pay-to-pubkey or not, every spend relation, every initial filter content over        *)
 (* {item, txid 1, txid 3}, the three update flags, and all 6 permutations as block order.  *)
-EXTENDS Integers, Sequences, FiniteSets, SequencesExt, TLC
+EXTENDS Integers, Sequences, FiniteSets, SequencesExt, TLC, Json, CSV, IOUtils
 
+CONSTANT Emit         \* TRUE = write a deterministic sample of the explored configurations as cases for replay
 CONSTANT Recheck      \* TRUE = the algorithm as implemented; FALSE drops the recursive re-check (negative control)
 VARIABLES scFlags, scI0, scOuts, scSp, scStage
 scvars == <<scFlags, scI0, scOuts, scSp, scStage>>
@@ -20,6 +21,16 @@ OpEl(t, k) == <<"op", t, k>>
 OutKinds == {[push |-> FALSE, pk |-> FALSE], [push |-> TRUE, pk |-> TRUE], [push |-> TRUE, pk |-> FALSE]}
 OutSeqs == {<<a>> : a \in OutKinds} \cup {<<a, b>> : a \in OutKinds, b \in OutKinds}
 
+\* a deterministic 1-in-SampleMod sample of the configurations (offset by the seed)
+SampleMod == IF "GEN_MOD" \in DOMAIN IOEnv THEN atoi(IOEnv.GEN_MOD) ELSE 400
+SeedOff == IF "VERIF_SEED" \in DOMAIN IOEnv THEN atoi(IOEnv.VERIF_SEED) % SampleMod ELSE 0
+Code(o) == (IF o.push THEN 1 ELSE 0) + (IF o.pk THEN 2 ELSE 0)
+Sample(s2, s3) ==
+  LET h == FoldLeft(LAMBDA acc, t : FoldLeft(LAMBDA a2, o : (a2 * 7 + Code(o) + 1) % 1000003, (acc * 31 + Len(scOuts[t])) % 1000003, scOuts[t]), 17, <<1, 2, 3>>)
+      g == (h * 13 + Cardinality(s2) * 5 + Cardinality(s3) * 3 + Cardinality(scI0) * 11 + scFlags
+            + (IF <<1, 1>> \in s3 THEN 101 ELSE 0) + (IF <<2, 1>> \in s3 THEN 211 ELSE 0) + (IF <<1, 2>> \in s2 THEN 307 ELSE 0)) % 1000003
+  IN g % SampleMod = SeedOff
+
 Init == /\ scFlags \in 0..2 /\ scI0 \in SUBSET {ItemA, TxEl(1), TxEl(3)}
         /\ scOuts = <<>> /\ scSp = <<>> /\ scStage = 0
 Next ==
@@ -28,7 +39,10 @@ Next ==
   \/ /\ scStage = 1 /\ scStage' = 2 /\ UNCHANGED <<scFlags, scI0, scOuts>>
      /\ \E s2 \in SUBSET {<<1, k>> : k \in 1..Len(scOuts[1])},
            s3 \in SUBSET ({<<1, k>> : k \in 1..Len(scOuts[1])} \cup {<<2, k>> : k \in 1..Len(scOuts[2])}) :
-          scSp' = <<{}, s2, s3>>
+          /\ scSp' = <<{}, s2, s3>>
+          /\ (Emit /\ Sample(s2, s3)) =>
+                CSVWrite("%1$s", <<ToJson([flags |-> scFlags, i0 |-> SetToSeq(scI0), outs |-> scOuts,
+                                          sp |-> <<<<>>, SetToSeq(s2), SetToSeq(s3)>>])>>, IOEnv.GEN_OUT)
 
 Updates(pk) == scFlags = 1 \/ (scFlags = 2 /\ pk)
 
